@@ -10,6 +10,8 @@ def pOp : P Op := do
   | "n" => pure .next
   | "s" => do let p ← int; pure (.seek p)
   | "sx" => pure .seekBad
+  | "d" => pure .render
+  | "p" => do let k ← nat; pure (.pilSeek k)
   | "c" => pure .close
   | "z" => do let s ← nat; pure (.setSize s)
   | "k" => do let p ← int; pure (.imgSeek p)
